@@ -51,3 +51,63 @@ Theorem C04_unsafe_refuted :
   exists sched, sorted_lt (g_queue (run sched (init [unsafe_writer_prog; unsafe_writer_prog] 0))) = false.
 Proof. exists [0; 0; 0; 0; 0; 1; 1; 1; 1; 1; 1; 0]%nat. vm_compute. reflexivity. Qed.
 Print Assumptions C04_unsafe_refuted.
+
+(* ---- every transaction kind, and the periodic collector (programs traced by harness/impl/c04_trace_impl.py) ---- *)
+
+(* the traced commit of EVERY transaction kind (metric, alert, component, operational, context incl. a new context state,
+   rt_sample / WaveformStream, descriptor update / create / delete) commits and puts its notifications on the wire between
+   acquiring and releasing the transaction lock and the MDIB lock *)
+Theorem C04_all_commit_programs_safe : forallb (fun p => prog_eqb p writer_prog) commit_programs = true.
+Proof. exact eq_refl. Qed.
+Print Assumptions C04_all_commit_programs_safe.
+
+(* every traced iteration of the periodic collector reads the MdibVersion that labels its PeriodicStates and makes the
+   state copies inside ONE critical section of the MDIB lock *)
+Theorem C04_periodic_collector_safe : forallb (fun p => prog_eqb p reader_prog) periodic_programs = true.
+Proof. exact eq_refl. Qed.
+Print Assumptions C04_periodic_collector_safe.
+
+Lemma C04_system_all progs :
+  Forall (fun p => In p commit_programs \/ In p (handler_programs ++ periodic_programs)) progs ->
+  system_ok_all commit_programs (handler_programs ++ periodic_programs) progs.
+Proof.
+  exact (fun Hp => conj C04_all_commit_programs_safe
+                     (conj (forallb_app_true _ _ _ (eq_refl : forallb (fun p => prog_eqb p reader_prog) handler_programs = true)
+                                             C04_periodic_collector_safe) Hp)).
+Qed.
+
+(* ANY number of writer threads running commits of ANY kind, request handlers and periodic collectors, EVERY interleaving:
+   the subscriber queue is strictly increasing in MdibVersion and never ahead of the MDIB *)
+Theorem C04_order_all_kinds : forall progs v0 sched,
+  Forall (fun p => In p commit_programs \/ In p (handler_programs ++ periodic_programs)) progs ->
+  sorted_lt (g_queue (run sched (init progs v0))) = true /\
+  Forall (fun q => q <= g_ver (run sched (init progs v0))) (g_queue (run sched (init progs v0))).
+Proof.
+  exact (fun progs v0 sched Hp =>
+           conj (order_all_kinds _ _ progs v0 sched (C04_system_all progs Hp))
+                (queue_bounded_all_kinds _ _ progs v0 sched (C04_system_all progs Hp))).
+Qed.
+Print Assumptions C04_order_all_kinds.
+
+(* ... and every completed collection (label, state copies) of a periodic collector shows the content of exactly the
+   MdibVersion it is labelled with, whatever commits of whatever kind run concurrently *)
+Theorem C04_periodic_label_truthful : forall progs v0 sched,
+  Forall (fun p => In p commit_programs \/ In p (handler_programs ++ periodic_programs)) progs ->
+  responses_consistent (run sched (init progs v0)) = true.
+Proof. exact (fun progs v0 sched Hp => snapshot_all_kinds _ _ progs v0 sched (C04_system_all progs Hp)). Qed.
+Print Assumptions C04_periodic_label_truthful.
+
+(* the hypothesis matters: a collector that reads the label before it takes the MDIB lock labels the content of
+   version 1 with MdibVersion 0 *)
+Theorem C04_early_label_refuted :
+  exists sched, responses_consistent (run sched (init [writer_prog; early_label_prog] 0)) = false.
+Proof. exists [1; 0; 0; 0; 0; 0; 0; 1; 1; 1; 1]%nat. vm_compute. reflexivity. Qed.
+Print Assumptions C04_early_label_refuted.
+
+Example C04_all_kinds_nonvacuous :
+  let s := run [0; 2; 0; 1; 0; 0; 0; 1; 0; 2; 1; 2; 1; 1; 2; 1; 2; 2; 2; 2]%nat
+               (init [prog_commit_rt_sample; prog_periodic_collect_500; prog_commit_descriptor] 7) in
+  g_ver s = 9 /\ g_queue s = [8; 9] /\ g_done s = [(8, 8)] /\
+  In prog_commit_rt_sample commit_programs /\ In prog_periodic_collect_500 periodic_programs /\
+  (7 <= length commit_programs)%nat.
+Proof. cbv zeta. repeat split; vm_compute; auto 20. Qed.
